@@ -707,6 +707,8 @@ func (ft *FT) next(x *ssa.Next, st *State, guard Term) {
 	ft.assume("true", ft.typeInv(key, tup.At(1).Type(), st))
 	ft.assume(and(guard, okc), and(not(eq(m, "0")), sel(md, m, key), not(app("select", vis, key))))
 	ft.assume(and(guard, not(okc)), or(eq(m, "0"), forall([][2]string{{"k", ksrt}}, implies(sel(md, m, "k"), app("select", vis, "k")))))
+	// cardinality fact of the map model at range exhaustion: a map without keys has length 0
+	ft.assume(and(guard, not(okc)), implies(forall([][2]string{{"k", ksrt}}, not(sel(md, m, "k"))), eq(ft.mapLen(st, m), "0")))
 	val := ft.fresh("rv", ft.d.sortOf(mt.Elem()))
 	ft.asserts = append(ft.asserts, "(assert "+implies(okc, eq(val, sel(ft.get(st, ks[1]), m, key)))+")")
 	ft.assume("true", ft.typeInv(val, mt.Elem(), st))
